@@ -39,6 +39,19 @@ MAP_API = {
     "memo_map::MemoMap::get_or_insert_owned": "keep-first",
 }
 
+INTERIOR_MUTABLE = {
+    "minijinja::loader::LoaderStore.owned_templates": "the loader-backed template tier: U2 / U8 decide what may be recorded in it (keep-first fill, cleared with the cache)",
+    "minijinja::value::InternalSerializationGuard.flag": "a borrow of the thread-local serialization flag held by its resetting guard (U4)",
+    "minijinja::value::argtypes::Kwargs.used": "per call: a `Kwargs` is built by the argument conversion of one call and dropped with it; the shared `KwargsValues` behind the Arc has no such field",
+    "minijinja::value::namespace_object::Namespace.data": "the namespace object is mutable by design (`{% set ns.x = .. %}`); it is created by a render (`namespace()`) and lives in that render's values",
+    "minijinja::vm::loop_object::Loop.last_changed_value": "the loop object of one loop execution (`loop.changed`)",
+    "minijinja::vm::loop_object::Loop.iter": "the iterator of one loop execution",
+    "minijinja::vm::loop_object::LoopState.idx": "the position of one loop execution",
+    "minijinja::vm::loop_object::Loop.idx": "the position of one loop execution",
+    "minijinja_contrib::globals::cycler::Cycler.pos": "a cycler is created by a render (`cycler(..)`) and advances by design",
+    "minijinja_contrib::globals::joiner::Joiner.used": "a joiner is created by a render (`joiner(..)`) and flips by design",
+}
+
 GLOBAL_STATE = {
     "minijinja::compiler::codegen::PENDING_BLOCK_POOL": "thread-local pool of emptied Vec buffers (U4: cleared on take)",
     "minijinja::compiler::codegen::SPAN_STACK_POOL": "thread-local pool of emptied Vec buffers (U4: cleared on take)",
@@ -448,6 +461,37 @@ def run(ctx):
                                           "a render and can make later renders depend on earlier ones (type %s)"
                                     % s["ty"].get("s")), "%s:%s" % (s["loc"].get("f"), s["loc"].get("l")))
     ctx.floor("C15.U3 mutable statics / thread-locals", n3, 12)
+
+    # ---- U11 (after seed C15-9): interior mutability is where history hides.  Every field of an engine type whose type
+    # has interior mutability (Mutex, RwLock, RefCell, Cell, atomics, Once*, MemoMap, UnsafeCell) is in a reviewed table
+    # with the reason why what it holds cannot outlive the operation that filled it - or is decided by another rule.
+    # (Seed C15-9 moved the per-call "used keyword arguments" set of `Kwargs` into the shared `KwargsValues` object, which
+    # the code generator embeds as a constant of the compiled template: later renders started with earlier renders' marks.)
+    import re as _re
+    IM = _re.compile(r"(Mutex<|RwLock<|RefCell<|\bCell<|Atomic[A-Z]|OnceCell<|OnceLock<|MemoMap<|UnsafeCell<|LazyLock<|LazyCell<)")
+    n11 = 0
+    seen11 = set()
+    for cname in ctx.configs():
+        p11 = ctx.program(cname)
+        for path, a in sorted(p11.adts.items()):
+            if not path.startswith(("minijinja::", "minijinja_contrib::")):
+                continue
+            for v in a["variants"]:
+                for fl in v["fields"]:
+                    if not IM.search(fl["ty"].get("s", "")):
+                        continue
+                    key = "%s.%s" % (path, fl["name"])
+                    if key in seen11:
+                        continue
+                    seen11.add(key)
+                    n11 += 1
+                    ctx.ob("C15.U11.interior-mutability-is-reviewed", key, key in INTERIOR_MUTABLE,
+                           INTERIOR_MUTABLE.get(key) or
+                           "%s is a new field with interior mutability (%s): state that can be changed through a shared reference. If "
+                           "the value is shared between calls, renders or clones of the environment (a constant of a compiled "
+                           "template, a registry entry), what one render leaves in it changes the next"
+                           % (key, fl["ty"].get("s", "")[:80]), path)
+    ctx.floor("C15.U11 fields with interior mutability", n11, 5)
 
     # ---- U10 (after seed C15-7): a state's id tells the objects of one render from those of every other render -
     # a macro refuses to run against a state that is not its own by comparing ids.  That works "from any number of
